@@ -697,6 +697,10 @@ class Interp(object):
                 if self.ctx.branch(br == 0, 'div0'):
                     raise PyRaise('ZeroDivisionError')
                 return VReal(ar / br)
+        if a.kind == 'opaque' and a.tag == 'text' and b.kind == 'str' and isinstance(op, ast.Add) and getattr(self.ctx, 'textworld', None) is not None:
+            if b.s != '\n':
+                raise Undecided('text + %r' % b.s)
+            return VOpaque(self.ctx.textworld['addnl'](a.z), 'text')          # line + "\n"
         if a.kind == 'list' and b.kind == 'list' and isinstance(op, ast.Add) and not a.esc and not b.esc:
             return VList(a.items + b.items)
         if a.kind == 'seq' or b.kind == 'seq':
@@ -1554,6 +1558,23 @@ class Interp(object):
                 return m4(self, recv, argv, kwv)
             raise Undecided('method %s.%s at %s' % (k, name, self.ctx.where))
         return m(recv, argv, kwv)
+
+    def m_opaque_write(self, recv, argv, kwv):
+        hook = getattr(self.ctx, 'file_write_hook', None)
+        if recv.tag != 'file' or hook is None:
+            raise Undecided('write on %s' % recv.tag)
+        return hook(self, recv, argv, kwv)
+
+    def m_opaque_encode(self, recv, argv, kwv):
+        w = getattr(self.ctx, 'textworld', None)
+        if recv.tag != 'text' or w is None or len(argv) != 1 or argv[0].kind not in ('opaque', 'str'):
+            raise Undecided('encode on %s' % recv.tag)
+        if argv[0].kind == 'str':
+            lits = w.setdefault('literals', {})
+            if argv[0].s not in lits:
+                lits[argv[0].s] = fresh('encoding_literal', Obj)          # a literal encoding name: some object (not known to be the caller's)
+            return VOpaque(w['enc'](recv.z, lits[argv[0].s]), 'bytes')
+        return VOpaque(w['enc'](recv.z, argv[0].z), 'bytes')
 
     def m_opaque_add_node(self, recv, argv, kwv):
         if recv.tag != 'nxdigraph':
